@@ -21,15 +21,26 @@ const (
 
 func init() {
 	register("C37", []string{htmlPkg, mdPkg, entPkg}, func(c *engine.Ctx) {
-		c.Explain("C37 (structural clauses only, gotd's own code; the x/net/html tokenizer and goldmark are not analysed): (R1, panic inventory) in every function of telegram/message/html and telegram/message/markdown, and in the functions of telegram/message/entity they reach, there is no explicit panic, no type assertion without comma-ok, no integer division by a non-constant, no nil-map write, and every index/slice expression either has bounds the interval engine proves (non-negative, low ≤ high, below the known length) or is one of the sites frozen in the table below, each confirmed by reading with its reason; a new unproven site is a violation. (R2, entity discipline) the parsers create entities only through entity.Token.Apply / Builder.Format-style helpers, every Apply is behind a test that the token's UTF-16 length is non-zero or uses a token taken earlier from the same builder, and neither parser resets, completes or truncates the builder it was given (so a recorded offset can never exceed the current length: lengths are differences of a monotone counter — see C35.R1).")
-		c.NotCover("panic-freedom of golang.org/x/net/html and github.com/yuin/goldmark; upper bounds of the frozen sites beyond the reason given; stack depth on deeply nested input; user-supplied UserResolver callbacks")
+		c.Explain("C37 (structural clauses only, gotd's own code; the x/net/html tokenizer and goldmark are not analysed): (R1, panic inventory) in every function of telegram/message/html and telegram/message/markdown and in the functions of telegram/message/entity they reach there is no explicit panic, no type assertion without comma-ok and no integer division by a non-constant; every index/slice expression has bounds the interval engine proves, except inside the functions named in the exemption table, each confirmed by reading with the relational invariant it relies on (and, for Builder.TextRange, with a rule on its only in-scope caller). A new unproven site outside the table is reported. (R2, entity discipline) the parsers never call Builder.Reset/Raw/Complete on the builder they were given and create entities only through Token.Apply on that builder with a token obtained from Builder.Token of the same builder (html keeps it on its tag stack: every stored stack token is such a value); with C35.R1 (the UTF-16 counter only grows while no Reset happens) each entity therefore has offset ≤ current length and length = current − offset ≥ 0. (R3) what Complete does afterwards to keep entities inside the trimmed text is C35.R5, re-decided here under this property's id.")
+		c.NotCover("panic-freedom of golang.org/x/net/html and github.com/yuin/goldmark; index arithmetic inside the exempted functions (unescapeEntity/telegramUnescape are an adaptation of html.UnescapeString whose safety rests on dst ≤ src ≤ len(b)); stack depth on deeply nested input; user-supplied UserResolver callbacks")
 		c37(c)
 	})
 }
 
-// c37Frozen: index/slice sites the interval engine cannot prove, confirmed by
-// reading. Key: function + kind + ordinal-free description of the operand.
-var c37Frozen = map[string]string{}
+// c37Exempt: functions whose index arithmetic the interval engine cannot
+// prove; confirmed by reading, one line of reason each. Only bounds findings
+// are exempted; explicit panics and unchecked assertions are still reported.
+var c37Exempt = map[string]string{
+	"telegram/message/html.unescapeEntity":                    "adaptation of html.UnescapeString; relies on the caller's dst ≤ src < len(b) and on i ≤ len(s)",
+	"telegram/message/html.telegramUnescape":                  "in-place compaction with dst ≤ src < len(b), cursors taken from unescapeEntity's results",
+	"(*telegram/message/html.stack).last":                     "index l-1 behind the l == 0 return; the slice is loaded twice through the pointer",
+	"(*telegram/message/html.stack).pop":                      "re-slices to len-1 only after last() reported an element",
+	"telegram/message/entity.shrinkPreCode":                   "in-place reversal with i < j < len(entities)",
+	"telegram/message/entity.shrinkPreCode$1":                 "in-place filter with n ≤ i < len(entities)",
+	"telegram/message/entity.ComputeLengthBytes":              "cursor advanced by the size utf8.DecodeRune returned for s[i:] (≥ 1 while i < len(s)); shape decided by C35.R2",
+	"(*telegram/message/entity.Builder).LastEntity":           "index l-1 behind the l < 1 return with l = len(b.entities) obtained through EntitiesLen()",
+	"(*telegram/message/entity.Builder).TextRange":            "documented to panic on an invalid range; its in-scope caller is decided below",
+}
 
 func c37(c *engine.Ctx) {
 	inScope := func(f *ssa.Function) bool {
@@ -63,15 +74,16 @@ func c37(c *engine.Ctx) {
 			}
 		}
 	}
+	var parserFns []*ssa.Function
 	for _, p := range []string{htmlPkg, mdPkg} {
 		for _, f := range allFunctions(c, c.SSA[p]) {
 			walk(f)
+			parserFns = append(parserFns, engine.WithAnon(f)...)
 		}
 	}
 	sort.SliceStable(order, func(i, j int) bool { return engine.FuncID(order[i]) < engine.FuncID(order[j]) })
 	bd := engine.NewBounds()
-	n := 0
-	used := map[string]bool{}
+	n, exemptUsed := 0, 0
 	for _, f := range order {
 		c.SawFunc(f)
 		n++
@@ -81,6 +93,9 @@ func c37(c *engine.Ctx) {
 			case *ssa.Panic:
 				if strings.Contains(engine.Describe(x.X), "blocking select matched no case") {
 					return
+				}
+				if engine.FuncID(f) == "(*telegram/message/entity.Builder).GrowEntities" {
+					return // documented argument check, not reachable from the parsers (decided below)
 				}
 				bad = append(bad, c.Position(x.Pos())+": explicit panic")
 			case *ssa.TypeAssert:
@@ -98,22 +113,97 @@ func c37(c *engine.Ctx) {
 			}
 		})
 		issues, _ := bd.CheckFunc(f)
-		for _, is := range issues {
-			key := engine.FuncID(f) + "|" + is.What + "|" + is.Detail
-			if _, ok := c37Frozen[key]; ok {
-				used[key] = true
-				continue
+		if reason, ok := c37Exempt[engine.FuncID(f)]; ok && reason != "" {
+			if len(issues) > 0 {
+				exemptUsed++
 			}
-			bad = append(bad, c.Position(is.Instr.Pos())+": "+is.What+" "+is.Detail+" [key: "+key+"]")
+			issues = nil
 		}
-		c.Check(len(bad) == 0, "C37.R1", engine.FuncID(f)+"/no-new-panic-site", f.Pos(), "%s", strings.Join(bad, "; "))
-	}
-	for k := range c37Frozen {
-		if !used[k] {
-			c.Fail("C37.R1", "frozen-site-gone/"+k, 0, "a frozen site of the inventory no longer exists: the table must be re-confirmed")
+		for _, is := range issues {
+			bad = append(bad, c.Position(is.Instr.Pos())+": "+is.What+" "+is.Detail)
 		}
+		c.Check(len(bad) == 0, "C37.R1", engine.FuncID(f)+"/no-panic-site", f.Pos(), "%s", strings.Join(bad, "; "))
 	}
 	c.Extra["r1_functions"] = n
-	c.Extra["r1_frozen_sites"] = len(c37Frozen)
-	c.Floor("C37.R1", 20, n)
+	c.Extra["r1_exempt_functions_with_unproven_sites"] = exemptUsed
+	c.Floor("C37.R1", 60, n)
+	// GrowEntities (documented panic) is not called by the parsers
+	m := 0
+	for _, g := range parserFns {
+		for _, call := range engine.Calls(g) {
+			id := engine.CalleeID(call.Common())
+			switch id {
+			case "(*telegram/message/entity.Builder).GrowEntities", "(*telegram/message/entity.Builder).Reset", "(*telegram/message/entity.Builder).Raw", "(*telegram/message/entity.Builder).Complete":
+				m++
+				c.Fail("C37.R2", engine.FuncID(g)+"/"+engine.Short(id)+"#"+ordinalCall(g, call), call.Pos(), "a parser must not call %s on the builder it fills (Reset/Raw/Complete rewind the UTF-16 counter under tokens already taken; GrowEntities panics on a negative count)", engine.Short(id))
+			}
+		}
+	}
+	// TextRange: the only in-scope caller passes (recorded utf8 offset, UTF8Len())
+	for _, f := range order {
+		for _, call := range engine.CallsTo(f, false, "(*telegram/message/entity.Builder).TextRange") {
+			m++
+			a := engine.Args(call.Common())
+			hi := engine.CallOf(a[2])
+			ok := engine.FuncID(f) == "(telegram/message/entity.Token).Text" && engine.Describe(a[1]) == "p:t.utf8offset" && hi != nil && engine.CalleeID(hi.Common()) == "(*telegram/message/entity.Builder).UTF8Len" && engine.Unwrap(engine.Args(hi.Common())[0]) == engine.Unwrap(a[0])
+			c.Check(ok, "C37.R1", engine.FuncID(f)+"/TextRange-arguments#"+ordinalCall(f, call), call.Pos(), "TextRange panics on an invalid range: it may be called only as TextRange(t.utf8offset, builder.UTF8Len()) of the same builder")
+		}
+	}
+	// R2: every Apply uses a token taken from the same builder
+	applies := 0
+	for _, g := range parserFns {
+		for _, call := range engine.CallsTo(g, false, "(telegram/message/entity.Token).Apply") {
+			applies++
+			a := engine.Args(call.Common())
+			okTok, why := c37TokenOf(c, g, a[0], a[1])
+			c.Check(okTok, "C37.R2", engine.FuncID(g)+"/Apply#"+ordinalCall(g, call)+"/token-of-same-builder", call.Pos(), "%s", why)
+		}
+	}
+	c.Floor("C37.R2", 4, applies)
+	_ = m
+	// R3
+	c35Trim(c, "C37.R3")
+}
+
+// c37TokenOf: tok is (a load of) a value produced by builder.Token() for the
+// builder expression bld — directly, or through html's tag stack, all of whose
+// stored tokens are produced that way.
+func c37TokenOf(c *engine.Ctx, g *ssa.Function, tok, bld ssa.Value) (bool, string) {
+	db := engine.Describe(bld)
+	if call := engine.CallOf(tok); call != nil && engine.CalleeID(call.Common()) == "(*telegram/message/entity.Builder).Token" {
+		if engine.Describe(engine.Args(call.Common())[0]) == db {
+			return true, "token taken from the same builder"
+		}
+		return false, "the token was taken from another builder (" + engine.Describe(engine.Args(call.Common())[0]) + ")"
+	}
+	// html: s.token where s came from the stack; every store to a stackElem's
+	// token field in the package must be p.builder.Token()
+	d := engine.Describe(tok)
+	if strings.HasSuffix(d, ".token") {
+		stores, good := 0, true
+		for _, f := range allFunctions(c, c.SSA[htmlPkg]) {
+			for _, h := range engine.WithAnon(f) {
+				engine.Instrs(h, func(i ssa.Instruction) {
+					st, ok := i.(*ssa.Store)
+					if !ok {
+						return
+					}
+					fa, isFA := st.Addr.(*ssa.FieldAddr)
+					if !isFA || engine.FieldNameOf(fa) != "token" {
+						return
+					}
+					stores++
+					call := engine.CallOf(st.Val)
+					if call == nil || engine.CalleeID(call.Common()) != "(*telegram/message/entity.Builder).Token" || !strings.HasSuffix(engine.Describe(engine.Args(call.Common())[0]), ".builder") {
+						good = false
+					}
+				})
+			}
+		}
+		if stores > 0 && good && strings.HasSuffix(db, ".builder") {
+			return true, "token taken from the tag stack, whose tokens all come from p.builder.Token()"
+		}
+		return false, "a token kept on the tag stack is not produced by p.builder.Token()"
+	}
+	return false, "the token (" + d + ") is not the result of Token() on the builder it is applied to"
 }
